@@ -451,3 +451,59 @@ def require_all_refuses_non_gate(kind: int) -> bool:
     except Exception:  # noqa: BLE001
         return False
     return False
+
+
+# ---------------------------------------------------------------------------
+# replay memory is part of "the proof gate verified it": the gate must hand its nonce cache to
+# the verifier in BOTH modes, and keep using the same one (added after a seeded change that
+# built the cache only in require mode went unnoticed: an allow-mode replay then came back
+# verified and require_all authenticated it).
+# ---------------------------------------------------------------------------
+
+_SEEN_CACHES: list = []
+
+
+def _recording_verify_proof(token, *, secrets, origin_id, skew_seconds=30, nonce_cache=None, now=None):  # type: ignore[no-untyped-def]
+    _SEEN_CACHES.append(nonce_cache)
+    return {"verified": "true", "proxy": "p", "kid": _KID, "origin_id": origin_id, "reason": "ok"}
+
+
+_gate_factory_recording = reglobalize(pf.proxy_proof_gate, verify_proof=_recording_verify_proof)
+_GATE_REC = {
+    (rq, rc): _gate_factory_recording(pf.ProxyProofConfig(mode="require" if rq else "allow", origin_id=_ORIGIN, secrets=_SECRETS, enable_replay_cache=rc))  # type: ignore[arg-type]
+    for rq in (False, True)
+    for rc in (False, True)
+}
+
+
+def _replay_twice(a: dict) -> str | None:
+    """Real gate, real verify_proof, real HMAC: the same valid proof presented twice."""
+    mode = "require" if a["required"] else "allow"
+    gate = pf.proxy_proof_gate(pf.ProxyProofConfig(mode=mode, origin_id=_ORIGIN, secrets=_SECRETS))  # type: ignore[arg-type]
+    auth = br.require_all(gate)
+    good = pf.mint_proof(_SECRET, _KID, _ORIGIN)
+    first = auth(_Req(True, good))  # type: ignore[arg-type]
+    try:
+        second = auth(_Req(True, good))  # type: ignore[arg-type]
+    except pf.ProofError:
+        return None
+    if first.authenticated and second.authenticated:
+        return f"mode={mode}: the same proof presented twice was authenticated twice (second: domain={second.domain!r}, claims={dict(second.claims)})"
+    return None
+
+
+@cond(q=20, t=40, stubs=["verify_proof := recorder of the nonce_cache argument"], encoded=[pf.proxy_proof_gate], bound="both modes x replay cache enabled/disabled x 2 requests",
+      replay=_replay_twice, signature=lambda a, c: "C24:gate:replay-cache-not-handed-to-verifier")
+def gate_hands_its_replay_cache_to_the_verifier(required: bool, replay_cache: bool) -> bool:
+    """
+    post: _
+    """
+    del _SEEN_CACHES[:]
+    gate = _GATE_REC[(True if required else False, True if replay_cache else False)]
+    gate(_Req(True, "x"))  # type: ignore[arg-type]
+    gate(_Req(True, "y"))  # type: ignore[arg-type]
+    if len(_SEEN_CACHES) != 2:
+        return False
+    if replay_cache:
+        return _SEEN_CACHES[0] is not None and _SEEN_CACHES[0] is _SEEN_CACHES[1]
+    return _SEEN_CACHES[0] is None and _SEEN_CACHES[1] is None
